@@ -218,6 +218,12 @@ class ConnectHooks(Hooks):
         ans = True
         cols_seen = set()
         for cj in sqlt.conjuncts(wp[0]):
+            pattern_match = cj[0] in ("like", "ilike") and len(cj) >= 3 and cj[2][0] == "lit" and any(not isinstance(p, str) for p in cj[2][1])
+            if pattern_match:
+                # name LIKE/ILIKE '<requested name>': `_` and `%` in the requested name act as wildcards, so a look-alike object
+                # answers for it — treated as an exact, case-insensitive comparison for the typestate, and recorded as a fact
+                st.facts.append(("an exact comparison (LIKE/ILIKE treats `_` and `%` in the requested name as wildcards)", f"{cj[1][1] if cj[1][0] == 'col' else cj[1]} lookup", False, site))
+                cj = ("cmp", "=", ("func", "UPPER", [cj[1]]) if cj[0] == "ilike" else cj[1], cj[2])
             if cj[0] != "cmp" or cj[1] != "=":
                 raise AnalysisError(f"connect model: unexpected existence conjunct {cj!r}")
             lhs, rhs = cj[2], cj[3]
